@@ -1,6 +1,6 @@
 (* C16 — Flags: bit meanings, selection by name and derivation.  Only statements here. *)
 From Coq Require Import ZArith List Bool String.
-From KV Require Import Base.Sx Base.Str Gen.Generated Model.Flags Proofs.FlagsP.
+From KV Require Import Base.Sx Base.Str Gen.Generated Model.Flags Proofs.FlagsP Model.FlagsV4 Proofs.FlagsV4P.
 From KV Require Model.Select Proofs.SelectP Props.C02.
 Import ListNotations.
 Open Scope Z_scope.
@@ -52,6 +52,18 @@ Theorem C16_unknown_ignored : forall n l, ~ In n doc_names ->
 Proof. exact unknown_ignored. Qed.
 Print Assumptions C16_unknown_ignored.
 
+(* ... with a warning: the setter warns about exactly the requested names that are not documented flag names
+   (one warning per occurrence), and about nothing when every requested name is documented. *)
+Theorem C16_unknown_warned : forall a n,
+  In n (unknown_names flag_names a) <-> In n (selection_to_list a doc_names) /\ ~ In n doc_names.
+Proof. exact unknown_warned. Qed.
+Print Assumptions C16_unknown_warned.
+
+Theorem C16_no_warning_iff_all_documented : forall a,
+  unknown_names flag_names a = [] <-> forall n, In n (selection_to_list a doc_names) -> In n doc_names.
+Proof. exact no_warning_iff. Qed.
+Print Assumptions C16_no_warning_iff_all_documented.
+
 (* boolean flag = (raw AND mask) non-zero = some selected bit is set in the raw byte; all 256 x 256 bytes. *)
 Theorem C16_flags_bool_spec : forall raw mask, 0 <= raw < 256 -> 0 <= mask < 256 ->
   flag_bool raw mask = existsb (fun i => Z.testbit raw i && Z.testbit mask i) [0;1;2;3;4;5;6;7].
@@ -83,3 +95,86 @@ Proof.
   exists s'. split; assumption.
 Qed.
 Print Assumptions C16_flag_select_changes_nothing_else.
+
+(* ======== v4 data sets: what d.raw_flags / d.flags / d.vis / d.weights show after ANY history of select() calls ======== *)
+
+(* The structure of VisibilityDataV4._set_keep / __init__ as regenerated from /repo at this run: vis, weights and
+   raw_flags are indexers on the corrected arrays and the first-stage index only (in particular NOT on the flag
+   selection), flags = raw_flags + [bitwise_and, view_as_bool]; the constants OR-ed in for lost chunks / invalid
+   calibration are flags.DATA_LOST (= 8) and flags.POSTPROC (= 128). *)
+Theorem C16_v4_indexer_sources :
+  v4_indexer_src = [("vis", "_corrected.vis"); ("weights", "_corrected.weights");
+                    ("raw_flags", "_corrected.flags"); ("flags", "_raw_flags")]%string
+  /\ v4_corrected_src = [("vis", ("apply_vis_correction", "source.data.vis"));
+                         ("flags", ("apply_flags_correction", "source.data.flags"));
+                         ("weights", ("apply_weights_correction", "source.data.weights"))]%string
+  /\ v4_flag_transforms = ["bitwise_and"; "view_as_bool"]%string
+  /\ v4_and_skipped_iff_all_ones = true.
+Proof. exact indexer_sources. Qed.
+Print Assumptions C16_v4_indexer_sources.
+
+Theorem C16_v4_flag_constants :
+  v4_lost_flag_name = "data_lost"%string /\ v4_lost_fill_name = "data_lost"%string
+  /\ v4_cal_flag_name = "postproc"%string
+  /\ lookup_mask v4_lost_flag_name = 8 /\ lookup_mask v4_lost_fill_name = 8 /\ lookup_mask v4_cal_flag_name = 128.
+Proof. exact flag_const_names. Qed.
+Print Assumptions C16_v4_flag_constants.
+
+(* The mask in force after any history of select() calls is the one of the LAST flags= argument (all names when
+   there was none), i.e. exactly the bits of the names currently selected. *)
+Theorem C16_history_mask : forall h : list (option selarg),
+  hist_mask flag_names h = spec_mask_v34 (spec_wanted (last_sel h (SelStr "all")))
+  /\ 0 <= hist_mask flag_names h < 256.
+Proof. exact history_mask. Qed.
+Print Assumptions C16_history_mask.
+
+Theorem C16_history_mask_last : forall h a h',
+  (forall st, In st h' -> st = None) ->
+  hist_mask flag_names (h ++ Some a :: h') = flagmask_v34 flag_names a.
+Proof. exact (hist_mask_app_some flag_names). Qed.
+Print Assumptions C16_history_mask_last.
+
+Theorem C16_history_mask_default : forall h,
+  (forall st, In st h -> st = None) -> hist_mask flag_names h = 255.
+Proof. exact history_mask_default. Qed.
+Print Assumptions C16_history_mask_default.
+
+(* v4 raw flags REGARDLESS of the selection history: stored byte (nothing where the flags chunk itself is lost)
+   | data_lost where any chunk of the sample is lost | postproc where the calibration correction is invalid. *)
+Theorem C16_v4_raw_flags_regardless_of_selection : forall (h : list (option selarg)) (s : v4s),
+  o_raw (v4_observe flag_names h s)
+  = Z.lor (Z.lor (if s_lostf s then 0 else s_stored s) (if lost_any s then 8 else 0))
+          (if cal_invalid s then 128 else 0)
+  /\ (lost_any s = true -> Z.testbit (o_raw (v4_observe flag_names h s)) 3 = true)
+  /\ (cal_invalid s = true -> Z.testbit (o_raw (v4_observe flag_names h s)) 7 = true)
+  /\ (lost_any s = false -> Z.testbit (o_raw (v4_observe flag_names h s)) 3 = Z.testbit (s_stored s) 3)
+  /\ (s_lostf s = false -> cal_invalid s = false ->
+      Z.testbit (o_raw (v4_observe flag_names h s)) 7 = Z.testbit (s_stored s) 7)
+  /\ (s_lostf s = false -> forall i, 0 <= i -> i <> 3 -> i <> 7 ->
+      Z.testbit (o_raw (v4_observe flag_names h s)) i = Z.testbit (s_stored s) i).
+Proof. exact v4_raw_regardless. Qed.
+Print Assumptions C16_v4_raw_flags_regardless_of_selection.
+
+(* v4 boolean flags after any history = some bit of the (derived) raw byte is among the currently selected names. *)
+Theorem C16_v4_flags_after_history : forall (h : list (option selarg)) (s : v4s), 0 <= s_stored s < 256 ->
+  o_flag (v4_observe flag_names h s)
+  = existsb (fun i => Z.testbit (spec_v4_raw s) i && Z.testbit (spec_hist_mask h) i) [0;1;2;3;4;5;6;7].
+Proof. exact v4_flag_spec. Qed.
+Print Assumptions C16_v4_flags_after_history.
+
+(* the code's short cut (no bitwise_and when the mask is all ones) is the same function on bytes *)
+Theorem C16_v4_flag_transform : forall raw mask, 0 <= raw < 256 -> 0 <= mask < 256 ->
+  v4_flag raw mask = flag_bool raw mask.
+Proof. exact v4_flag_is_flag_bool. Qed.
+Print Assumptions C16_v4_flag_transform.
+
+(* Two histories give the same raw flags, visibilities and weights for every sample; the boolean flags differ at
+   most through the last flags= argument. *)
+Theorem C16_history_only_moves_boolean_flags : forall h h' s,
+  o_raw (v4_observe flag_names h s) = o_raw (v4_observe flag_names h' s) /\
+  o_vis (v4_observe flag_names h s) = o_vis (v4_observe flag_names h' s) /\
+  o_weight (v4_observe flag_names h s) = o_weight (v4_observe flag_names h' s) /\
+  (last_sel h (SelStr "all") = last_sel h' (SelStr "all") ->
+   o_flag (v4_observe flag_names h s) = o_flag (v4_observe flag_names h' s)).
+Proof. exact history_only_moves_boolean_flags. Qed.
+Print Assumptions C16_history_only_moves_boolean_flags.
